@@ -160,13 +160,120 @@ def run(program, rep, tier):
                 deciders.append(n)
     ok_d = False
     why = 'no decision about a __dict__ slot found'
+
+    class _NoEval(Exception):
+        pass
+
+    def _ev(n, sc, env):
+        """Evaluate the decision for a scenario: collections of names are
+        lists of "is an identifier" flags."""
+        if isinstance(n, ast.Constant):
+            return n.value
+        if isinstance(n, ast.Name):
+            if n.id in env:
+                return env[n.id]
+            vs = assigns.get(n.id, [])
+            if len(vs) == 1:
+                return _ev(vs[0], sc, env)
+            raise _NoEval(n.id)
+        t = norm(n)
+        if t in ('self.handles', 'self.handles.keys()'):
+            return [True] * sc[0] + [False] * sc[1]
+        if t in ('self.maps', 'self.maps.keys()'):
+            return [True] * sc[2] + [False] * sc[3]
+        if isinstance(n, ast.Call):
+            d = dotted(n.func) or ''
+            if d.split('.')[-1] == 'chain' and not n.keywords:
+                out = []
+                for a in n.args:
+                    out += list(_ev(a, sc, env))
+                return out
+            if d in ('tuple', 'list', 'set', 'frozenset', 'sorted') \
+                    and len(n.args) == 1:
+                return list(_ev(n.args[0], sc, env))
+            if d == 'len' and len(n.args) == 1:
+                return len(_ev(n.args[0], sc, env))
+            if d in ('any', 'all') and len(n.args) == 1:
+                return (any if d == 'any' else all)(_ev(n.args[0], sc, env))
+            if d == 'filter' and len(n.args) == 2:
+                f_, seq = n.args
+                seq = _ev(seq, sc, env)
+                if isinstance(f_, ast.Lambda) and len(f_.args.args) == 1:
+                    p_ = f_.args.args[0].arg
+                    return [x for x in seq
+                            if _ev(f_.body, sc, dict(env, **{p_: x}))]
+                if norm(f_) == 'str.isidentifier':
+                    return [x for x in seq if x]
+            if isinstance(n.func, ast.Attribute) and n.func.attr == \
+                    'isidentifier' and not n.args:
+                return bool(_ev(n.func.value, sc, env))
+            raise _NoEval(t)
+        if isinstance(n, (ast.GeneratorExp, ast.ListComp, ast.SetComp)) \
+                and len(n.generators) == 1 and isinstance(
+                    n.generators[0].target, ast.Name):
+            g_ = n.generators[0]
+            out = []
+            for x in _ev(g_.iter, sc, env):
+                e2 = dict(env, **{g_.target.id: x})
+                if all(_ev(c, sc, e2) for c in g_.ifs):
+                    out.append(_ev(n.elt, sc, e2))
+            return out
+        if isinstance(n, (ast.Tuple, ast.List)):
+            out = []
+            for e_ in n.elts:
+                if isinstance(e_, ast.Starred):
+                    out += list(_ev(e_.value, sc, env))
+                else:
+                    out.append(_ev(e_, sc, env))
+            return out
+        if isinstance(n, ast.BinOp) and isinstance(n.op, (ast.Add, ast.Sub)):
+            a_, b_ = _ev(n.left, sc, env), _ev(n.right, sc, env)
+            return a_ + b_ if isinstance(n.op, ast.Add) else a_ - b_
+        if isinstance(n, ast.UnaryOp) and isinstance(n.op, ast.Not):
+            return not _ev(n.operand, sc, env)
+        if isinstance(n, ast.BoolOp):
+            vals = [_ev(v, sc, env) for v in n.values]
+            return all(vals) if isinstance(n.op, ast.And) else any(vals)
+        if isinstance(n, ast.Compare) and len(n.ops) == 1:
+            a_, b_ = _ev(n.left, sc, env), _ev(n.comparators[0], sc, env)
+            import operator as _o
+            ops = {ast.Lt: _o.lt, ast.LtE: _o.le, ast.Gt: _o.gt,
+                   ast.GtE: _o.ge, ast.Eq: _o.eq, ast.NotEq: _o.ne}
+            if type(n.ops[0]) in ops:
+                return ops[type(n.ops[0])](a_, b_)
+        raise _NoEval(t)
     if deciders:
         src = closure_text(deciders[0].test)
         ok_d = 'self.handles' in src and 'self.maps' in src
-        why = ('the decision to give the snapshot a __dict__ does not look '
-               'at the names of both the handles and the sub-maps: a level '
-               'whose only non-identifier names are of the other kind makes '
-               'get_static_map() raise AttributeError')
+        # evaluate the decision for every mix of identifier / other names
+        dec = deciders[0]
+        in_body = any(isinstance(x, ast.Constant) and x.value == '__dict__'
+                      for b in (dec.body if isinstance(dec, ast.If)
+                                else [dec.body]) for x in ast.walk(b))
+        try:
+            import itertools as _it
+            for sc in _it.product((0, 1, 2), repeat=4):
+                got = bool(_ev(dec.test, sc, {}))
+                has_dict = got if in_body else not got
+                need = sc[1] + sc[3] > 0
+                if need and not has_dict:
+                    ok_d = False
+                    why = (f'with {sc[0]}+{sc[1]} handle names and '
+                           f'{sc[2]}+{sc[3]} sub-map names (identifiers + '
+                           'others) the snapshot class gets no __dict__ '
+                           'although a name is not an identifier: '
+                           'get_static_map() raises AttributeError')
+                    break
+            else:
+                if ok_d:
+                    why = ''
+        except (_NoEval, TypeError, ValueError):
+            pass
+        if not ok_d and not why.startswith('with '):
+            why = ('the decision to give the snapshot a __dict__ does not '
+                   'look at the names of both the handles and the sub-maps: '
+                   'a level whose only non-identifier names are of the other '
+                   'kind makes get_static_map() raise AttributeError')
     rep.check(ok_d, 'C17.mirror', site,
               deciders[0].test if deciders else '__dict__ decision',
               'non-identifier names of either kind get a __dict__', why,
